@@ -313,6 +313,14 @@ func panicsAndAsserts(r *Report, p *Prog, tab *totalityTable) {
 						text := types.ExprString(x)
 						key := fn + ": " + text
 						if why, ok := revP[fn+"|"+text]; ok {
+							if fn == "resolve/pypi.(markerExpr).Eval" {
+								if pf := p.lookupFn("(*resolve/pypi.envParser).parseMarkerExpr"); pf != nil {
+									if found, prop, pos := errPropagated(pf, "semver.System).ParseConstraint"); !found || !prop {
+										r.bad("C04.2/PANICS", key, p.pos(pos), "the reviewed reason no longer holds: parseMarkerExpr swallows the error of ParseConstraint, so a ~= expression without a constraint reaches this panic")
+										return true
+									}
+								}
+							}
 							r.ok("C04.2/PANICS", key, p.pos(x.Pos()), "reviewed: "+why)
 						} else {
 							r.bad("C04.2/PANICS", key, p.pos(x.Pos()), "an explicit panic that is not on the reviewed list: show it is unreachable from text input (and list it with the reason) or return an error")
